@@ -802,7 +802,11 @@ class RefResolver(object):
             ):
                 # Array indexes (RFC 6901: "0", or digits without a
                 # leading zero) should be turned into integers
-                part = int(part)
+                try:
+                    part = int(part)
+                except ValueError:
+                    # more digits than int() converts: not a usable index
+                    pass
             try:
                 document = document[part]
             except (TypeError, LookupError):
